@@ -118,7 +118,17 @@ class CallSiteScan(FiniteTask):
                             nc = any(k.arg == "consume" and isinstance(k.value, ast.Constant) and k.value.value is False for k in n.keywords)
                             sites.append((os.path.relpath(path, REPO_ROOT), f.name, n.lineno, nc))
         emit("C07/frame/call-sites-found", len(sites) >= 2, detail=sites)
+        # a check that was moved into a private helper called only by the reactor is the reactor's (scanutil)
+        from contracts.scanutil import callers_by_name, roots_of
+        callers = callers_by_name(exclude=("tests", "benchmarks"))
+        reactor = {("association.py", "_run_reactor")}
+
+        def of_reactor(path, fname):
+            return fname == "_run_reactor" or roots_of((os.path.basename(path), fname), reactor, callers) == reactor
         for path, fname, line, nc in sites:
+            if of_reactor(path, fname):
+                fname = "_run_reactor"
+                path = "pynetdicom/association.py"
             if fname == "_run_reactor":
                 emit(f"C07/frame/{path}:{fname}/the-reactor-consumes-the-indication-it-answers", not nc)
             else:
